@@ -104,7 +104,8 @@ Fixpoint trim_lr (s : bytes) : bytes :=
       | [] => s
       end
   end.
-Definition trim (s : bytes) : bytes := rev (trim_lr (rev (trim_l s))).
+(* rev' = rev_append _ []: the same list as rev (List.rev_alt), computed in linear time *)
+Definition trim (s : bytes) : bytes := rev' (trim_lr (rev' (trim_l s))).
 
 (* strings.IndexRune(line, ':') and the two slices *)
 Fixpoint split_colon (s : bytes) : option (bytes * bytes) :=
@@ -183,7 +184,7 @@ Definition read_stream (s : bytes) : list bytes * rend := read_all (S (length s)
 Definition payload_ok (p : bytes) : Prop := p <> [] /\ N.of_nat (length p) < 2147483648.
 
 (* ====================================================================================== *)
-(*  Part 2.  conn.go as a transition system                                               *)
+(*  Part 2.  conn.go as a transition system over a transport that can fail                *)
 (* ====================================================================================== *)
 Close Scope N_scope.
 
@@ -194,7 +195,8 @@ Inductive result :=
 | Got (r : resp)        (* Call returned the response taken from its channel *)
 | Cancelled             (* Call returned ctx.Err() from the select *)
 | WriteFailed           (* stream.Write saw ctx.Done() and wrote nothing *)
-| Sent.                 (* Notify / reply: written *)
+| Sent                  (* Notify / reply: written *)
+| TransportErr.         (* stream.Write: the underlying connection's Write returned an error *)
 
 Inductive kind := KCall | KWrite.   (* KWrite: Notify, and the replier of an incoming call *)
 
@@ -223,17 +225,20 @@ Record state := mkS {
   threads : nat -> thread;
   pending : list (nat * nat);  (* c.pending: id -> the registering call's channel (thread index) *)
   lock : option nat;           (* writeMu holder *)
-  wire : bytes;                (* everything written to the underlying connection *)
+  wire : bytes;                (* every byte the underlying connection accepted *)
   sent : list bytes;           (* ghost: payloads whose frame is complete, in lock order *)
   next_id : nat;               (* c.seq *)
-  run : option (resp * nat)    (* read loop: holds rchan of that thread, about to send *)
+  run : option (resp * nat);   (* read loop: holds rchan of that thread, about to send *)
+  down : bool;                 (* the underlying connection has returned an error from Write (it keeps doing so) *)
+  torn : bytes;                (* ghost: what the failed Write had put on the connection beyond the complete frames *)
+  senders : list nat           (* ghost: the threads whose frame is complete, in lock order *)
 }.
 
 Definition dead : thread := mkT KWrite PDone 0 [] None false None.
 Definition mk_thread (kp : kind * bytes) : thread :=
   mkT (fst kp) (match fst kp with KCall => PStart | KWrite => PReady end) 0 (snd kp) None false None.
 Definition init (prog : list (kind * bytes)) : state :=
-  mkS (fun t => nth t (map mk_thread prog) dead) [] None [] [] 0 None.
+  mkS (fun t => nth t (map mk_thread prog) dead) [] None [] [] 0 None false [] [].
 
 Definition upd (f : nat -> thread) (t : nat) (v : thread) : nat -> thread :=
   fun x => if Nat.eqb x t then v else f x.
@@ -246,13 +251,18 @@ Definition delete (id : nat) (l : list (nat * nat)) : list (nat * nat) :=
   filter (fun kv => negb (Nat.eqb (fst kv) id)) l.
 
 Inductive action :=
-| ACtx (t : nat)           (* environment: the call's context is cancelled *)
+| ACtx (t : nat)           (* environment: the call's context is cancelled - at ANY moment, also between the
+                              header and the body of the thread's own write *)
 | ASeq (t : nat)           (* Call: id = NewNumberID(atomic.AddInt32(&c.seq, 1)) *)
 | AReg (t : nat)           (* Call: c.pending[id] = rchan *)
 | ALock (t : nat)          (* c.write: writeMu.Lock() *)
 | AWriteCancelled (t : nat)(* stream.Write: ctx.Done() ready, return before writing; writeMu.Unlock() *)
-| AHeader (t : nat)        (* stream.Write: fmt.Fprintf(conn, "Content-Length: %v\r\n\r\n") *)
-| ABody (t : nat)          (* stream.Write: conn.Write(data) *)
+| AHeader (t : nat)        (* stream.Write: fmt.Fprintf(conn, "Content-Length: %v\r\n\r\n") succeeds *)
+| ABody (t : nat)          (* stream.Write: conn.Write(data) succeeds *)
+| AHeaderFail (t k : nat)  (* stream.Write: the header's conn.Write takes k bytes (fewer than given) and returns an
+                              error; stream.Write returns it; writeMu.Unlock() *)
+| ABodyFail (t k : nat)    (* stream.Write: the body's conn.Write takes k bytes (fewer than given) and returns an
+                              error; stream.Write returns it; writeMu.Unlock() *)
 | AUnlock (t : nat)        (* c.write: writeMu.Unlock() *)
 | ATake (t : nat)          (* Call: case resp := <-rchan *)
 | ACancel (t : nat)        (* Call: case <-ctx.Done() *)
@@ -261,7 +271,7 @@ Inductive action :=
 | ASend.                   (* run: rchan <- msg   (blocks while the channel is full) *)
 
 Definition with_threads (s : state) (f : nat -> thread) : state :=
-  mkS f (pending s) (lock s) (wire s) (sent s) (next_id s) (run s).
+  mkS f (pending s) (lock s) (wire s) (sent s) (next_id s) (run s) (down s) (torn s) (senders s).
 
 Definition is_pc (p q : pc) : bool :=
   match p, q with
@@ -270,6 +280,11 @@ Definition is_pc (p q : pc) : bool :=
   | _, _ => false
   end.
 Definition is_call (th : thread) : bool := match t_kind th with KCall => true | KWrite => false end.
+
+(* the thread returns from c.write with the error of a failed conn.Write *)
+Definition failed (th : thread) : thread :=
+  mkT (t_kind th) (if is_call th then PSel else PDone) (t_id th) (t_payload th) (t_chan th) (t_ctx th)
+      (Some TransportErr).
 
 Definition step (s : state) (a : action) : option state :=
   match a with
@@ -281,20 +296,20 @@ Definition step (s : state) (a : action) : option state :=
       let th := threads s t in
       if is_call th && is_pc (t_pc th) PStart then
         Some (mkS (upd (threads s) t (mkT KCall PIdd (S (next_id s)) (t_payload th) (t_chan th) (t_ctx th) (t_ret th)))
-                  (pending s) (lock s) (wire s) (sent s) (S (next_id s)) (run s))
+                  (pending s) (lock s) (wire s) (sent s) (S (next_id s)) (run s) (down s) (torn s) (senders s))
       else None
   | AReg t =>
       let th := threads s t in
       if is_call th && is_pc (t_pc th) PIdd then
         Some (mkS (upd (threads s) t (set_pc th PReady))
-                  ((t_id th, t) :: pending s) (lock s) (wire s) (sent s) (next_id s) (run s))
+                  ((t_id th, t) :: pending s) (lock s) (wire s) (sent s) (next_id s) (run s) (down s) (torn s) (senders s))
       else None
   | ALock t =>
       let th := threads s t in
       match lock s with
       | None => if is_pc (t_pc th) PReady then
                   Some (mkS (upd (threads s) t (set_pc th PLocked))
-                            (pending s) (Some t) (wire s) (sent s) (next_id s) (run s))
+                            (pending s) (Some t) (wire s) (sent s) (next_id s) (run s) (down s) (torn s) (senders s))
                 else None
       | Some _ => None
       end
@@ -304,19 +319,37 @@ Definition step (s : state) (a : action) : option state :=
         Some (mkS (upd (threads s) t
                     (mkT (t_kind th) (if is_call th then PSel else PDone) (t_id th) (t_payload th)
                          (t_chan th) (t_ctx th) (Some WriteFailed)))
-                  (pending s) None (wire s) (sent s) (next_id s) (run s))
+                  (pending s) None (wire s) (sent s) (next_id s) (run s) (down s) (torn s) (senders s))
       else None
   | AHeader t =>
       let th := threads s t in
-      if is_pc (t_pc th) PLocked then
+      if is_pc (t_pc th) PLocked && negb (down s) then
         Some (mkS (upd (threads s) t (set_pc th PHeader))
-                  (pending s) (lock s) (wire s ++ frame_header (t_payload th)) (sent s) (next_id s) (run s))
+                  (pending s) (lock s) (wire s ++ frame_header (t_payload th)) (sent s) (next_id s) (run s)
+                  (down s) (torn s) (senders s))
       else None
   | ABody t =>
       let th := threads s t in
-      if is_pc (t_pc th) PHeader then
+      if is_pc (t_pc th) PHeader && negb (down s) then
         Some (mkS (upd (threads s) t (set_pc th PBody))
-                  (pending s) (lock s) (wire s ++ t_payload th) (sent s ++ [t_payload th]) (next_id s) (run s))
+                  (pending s) (lock s) (wire s ++ t_payload th) (sent s ++ [t_payload th]) (next_id s) (run s)
+                  (down s) (torn s) (senders s ++ [t]))
+      else None
+  | AHeaderFail t k =>
+      let th := threads s t in
+      if is_pc (t_pc th) PLocked && Nat.ltb k (length (frame_header (t_payload th))) then
+        let got := firstn k (frame_header (t_payload th)) in   (* a connection that is down takes nothing *)
+        Some (mkS (upd (threads s) t (failed th))
+                  (pending s) None (if down s then wire s else wire s ++ got) (sent s) (next_id s) (run s)
+                  true (if down s then torn s else got) (senders s))
+      else None
+  | ABodyFail t k =>
+      let th := threads s t in
+      if is_pc (t_pc th) PHeader && Nat.ltb k (length (t_payload th)) then
+        let got := firstn k (t_payload th) in
+        Some (mkS (upd (threads s) t (failed th))
+                  (pending s) None (if down s then wire s else wire s ++ got) (sent s) (next_id s) (run s)
+                  true (if down s then torn s else frame_header (t_payload th) ++ got) (senders s))
       else None
   | AUnlock t =>
       let th := threads s t in
@@ -324,7 +357,7 @@ Definition step (s : state) (a : action) : option state :=
         Some (mkS (upd (threads s) t
                     (if is_call th then set_pc th PWait
                      else mkT (t_kind th) PDone (t_id th) (t_payload th) (t_chan th) (t_ctx th) (Some Sent)))
-                  (pending s) None (wire s) (sent s) (next_id s) (run s))
+                  (pending s) None (wire s) (sent s) (next_id s) (run s) (down s) (torn s) (senders s))
       else None
   | ATake t =>
       let th := threads s t in
@@ -345,14 +378,16 @@ Definition step (s : state) (a : action) : option state :=
       let th := threads s t in
       if is_pc (t_pc th) PSel then
         Some (mkS (upd (threads s) t (set_pc th PDone))
-                  (delete (t_id th) (pending s)) (lock s) (wire s) (sent s) (next_id s) (run s))
+                  (delete (t_id th) (pending s)) (lock s) (wire s) (sent s) (next_id s) (run s)
+                  (down s) (torn s) (senders s))
       else None
   | ARead r =>
       match run s with
       | Some _ => None                                      (* the loop is busy sending *)
       | None =>
           match lookup (fst r) (pending s) with
-          | Some t => Some (mkS (threads s) (pending s) (lock s) (wire s) (sent s) (next_id s) (Some (r, t)))
+          | Some t => Some (mkS (threads s) (pending s) (lock s) (wire s) (sent s) (next_id s) (Some (r, t))
+                                (down s) (torn s) (senders s))
           | None => Some s                                  (* nobody waits for this id: dropped *)
           end
       end
@@ -363,7 +398,7 @@ Definition step (s : state) (a : action) : option state :=
           match t_chan th with
           | None => Some (mkS (upd (threads s) t
                           (mkT (t_kind th) (t_pc th) (t_id th) (t_payload th) (Some r) (t_ctx th) (t_ret th)))
-                        (pending s) (lock s) (wire s) (sent s) (next_id s) None)
+                        (pending s) (lock s) (wire s) (sent s) (next_id s) None (down s) (torn s) (senders s))
           | Some _ => None                                  (* channel full: the send blocks *)
           end
       | None => None
@@ -376,11 +411,18 @@ Fixpoint exec (s : state) (tr : list action) : option state :=
   | a :: r => match step s a with Some s' => exec s' r | None => None end
   end.
 
-(* what the lock holder has on the wire beyond the complete frames *)
+(* what is on the wire beyond the complete frames: the torn frame of the Write that failed, else the
+   header of the lock holder *)
 Definition partial (s : state) : bytes :=
+  if down s then torn s else
   match lock s with
   | Some t => if is_pc (t_pc (threads s t)) PHeader then frame_header (t_payload (threads s t)) else []
   | None => []
   end.
 
 Definition quiescent (s : state) : Prop := forall t, t_pc (threads s t) = PDone.
+
+(* c.write returned nil for this thread: its frame is complete *)
+Definition wrote (th : thread) : bool :=
+  is_pc (t_pc th) PBody || is_pc (t_pc th) PWait ||
+  match t_ret th with Some (Got _) | Some Cancelled | Some Sent => true | _ => false end.
